@@ -120,8 +120,18 @@ claim("C11",
       "(Parallels snapshot chain, Hyper-V key-table entry walk, Hyper-V object tables) run on symbolic pointers/sizes.",
       TRUST, "symbolic execution in fault mode with unwinding assertions + z3; watchdog replays", "4.11")
 
+claim("C15",
+      "The real VMX.unlock_with_phrase, KeySafe.from_text/unseal_with_phrase, Pair, Phrase.unwrap, _parse_crypto_dict and "
+      "_decrypt_hmac run over an idealised (Dolev-Yao) crypto stub set with the configuration length and the position of an "
+      "altered byte symbolic: honest input unlocks to exactly the original content and leaves other entries alone; a wrong "
+      "passphrase or one altered byte in either ciphertext or either MAC raises and leaves the configuration unchanged. The "
+      "solver decides the slice arithmetic (IV/MAC/padding boundaries, truncated digests); counterexamples are replayed with "
+      "real PBKDF2/AES-CBC/HMAC.",
+      TRUST + "; cryptographic primitives are idealised", "symbolic execution of vmx.py over idealised cryptography + z3",
+      "4.15")
+
 PENDING = "check not built yet in this round (planned: see DESIGN.md section 4)"
-for _p in ("C14", "C15", "C17"):
+for _p in ("C14", "C17"):
     NOT_APPLICABLE[_p] = PENDING
 NOT_APPLICABLE["C16"] = ("the property's content (cstruct writers, AES-GCM, PBKDF2) sits behind C boundaries that would have "
                          "to be stubbed; nothing of the repository's own arithmetic would remain to be decided (DESIGN 5)")
